@@ -124,6 +124,48 @@ func getDetector(w *World) *detInfo {
 			d.Role["weights"] = fi
 		}
 	}
+	// the background frame may be allocated by a helper the constructor calls: the one *Frame field of the detector
+	// that some method of the detector assigns a freshly allocated frame to
+	if _, ok := d.Role["background"]; !ok {
+		cands := map[int]bool{}
+		for fn := range w.AllFuncs {
+			if fn.Pkg != pkg || fn.Signature.Recv() == nil || !isPtrTo(fn.Signature.Recv().Type(), d.T) {
+				continue
+			}
+			for _, b := range fn.Blocks {
+				for _, in := range b.Instrs {
+					st, ok := in.(*ssa.Store)
+					if !ok {
+						continue
+					}
+					fa, ok := st.Addr.(*ssa.FieldAddr)
+					if !ok || !isPtrTo(fa.X.Type(), d.T) {
+						continue
+					}
+					if c, ok := st.Val.(*ssa.Call); ok && strings.HasSuffix(calleeName(c), "cptvframe.NewFrame") {
+						cands[fa.Field] = true
+					}
+				}
+			}
+		}
+		if len(cands) == 1 {
+			for fi := range cands {
+				d.Role["background"] = fi
+			}
+		}
+	}
+	// the per-pixel weights: the one [][]float32 field
+	if _, ok := d.Role["weights"]; !ok {
+		var cands []int
+		for fi := 0; fi < d.St.NumFields(); fi++ {
+			if d.St.Field(fi).Type().String() == "[][]float32" {
+				cands = append(cands, fi)
+			}
+		}
+		if len(cands) == 1 {
+			d.Role["weights"] = cands[0]
+		}
+	}
 	// the working threshold: the only uint16 field that is written outside the constructor (the dynamic
 	// threshold computation); its initial value is checked separately (C07.K2)
 	if _, ok := d.Role["tempThresh"]; !ok {
